@@ -23,6 +23,17 @@ FAIL_INPUTS = {
 }
 
 
+# per-transformation facilities that own heap objects keyed by document / fragment (key tables, counters, sorted
+# node lists, format-number caches) used INSIDE result tree fragments, followed by a failure: on success all of
+# them are released before the fragments are returned, so only a failing run shows a fragment's table that is
+# dropped without being destroyed (seed C19_a).  (scenario, stylesheet, source)
+EXTRA_INPUTS = [
+    ("fail_message", _p("fail_rtf_key.xsl"), _p("s1.xml")),
+    ("fail_xpath", _p("fail_rtf_xpath.xsl"), _p("s1.xml")),
+    ("transform", _p("ok_rtf_key.xsl"), _p("s1.xml")),
+]
+
+
 def build(variant="plain"):
     """Build library + harness; returns (exe, ok, log)."""
     ok, log = core.build_lib(variant)
@@ -317,6 +328,7 @@ def plan(rng, thorough):
         pairs += [("transform",) + p for p in pool]
         pairs += [("transform_compiled",) + p for p in pick(3)] + [("two",) + p for p in pick(2)]
     pairs += [("fail_message",) + FAIL_INPUTS["fail_message"], ("fail_xpath",) + FAIL_INPUTS["fail_xpath"]]
+    pairs += EXTRA_INPUTS
     return pairs
 
 
@@ -467,6 +479,7 @@ def regen_sites(out=None):
     for sc in ("compile", "parse", "transform", "transform_compiled", "two"):
         pairs += [(sc,) + p for p in POOL]
     pairs += [("fail_message",) + FAIL_INPUTS["fail_message"], ("fail_xpath",) + FAIL_INPUTS["fail_xpath"]]
+    pairs += EXTRA_INPUTS
     jobs = [(sc, xsl, xml, "single") for sc, xsl, xml in pairs]
     jobs += [(sc,) + FAIL_INPUTS.get(sc, POOL[0]) + ("persist",) for sc in ("fail_xpath", "fail_message", "transform")]
     for scenario, xsl, xml, mode in jobs:
